@@ -4,13 +4,14 @@ import os
 import re
 
 from common import Inconclusive, add_violations_from_bad, finish, log
-from statechecks import validate_parallel
+from statechecks import require_actions, validate_parallel
 
 
 def run(ctx):
     quick = ctx.quick()
     # 1. design level: every DAG over Nodes, any sharing, a crash anywhere, batches of Ideal puts
     base = ctx.tlc("TrieCommit", cfg="TrieCommit_quick.cfg" if quick else "TrieCommit.cfg", coverage=not quick, timeout=1500)
+    require_actions(base, ["InsertTrie", "CommitBegin", "SkipKnown", "Descend", "PutNode", "Flush", "CommitEnd", "Crash"])
     # negative control: a pre-order walk must break Closed (the invariant is not vacuous)
     neg = ctx.tlc("TrieCommit", cfg="TrieCommit_preorder.cfg", allow_violation=True)
     if not neg["error"] or "Closed" not in neg["error"]:
@@ -18,7 +19,7 @@ def run(ctx):
     # 2. the real write sequences, every prefix re-opened by the real code
     drv = ctx.build("c03")
     procs = 4
-    per = 6 if quick else 40
+    per = 6 if quick else 80
     blocks = 5 if quick else 6
     argvs, traces = [], []
     for k in range(procs):
